@@ -8,7 +8,9 @@
 // sessions, session_checks, prepared-queries, catalog tables and the index table after every command
 // for the Lean model (CV.Store) to reproduce.
 // Monitor (model independent): LockInv on the real tables after every command, acquire / release
-// verdicts, and the same-step release for every session that vanished.
+// verdicts, the same-step release for every session that vanished, every reason a session must end, and
+// no session_checks row naming a check that does not exist (linkMon). sesscheck.go adds the streams
+// around session-typed checks (bindable while critical) and every path that deletes a bound check.
 package main
 
 import (
@@ -90,10 +92,12 @@ func preamble() []*storex.Op {
 func main() {
 	run := hx.Start()
 	run.Rule = "every result line and every full table dump (kvs, tombstones, sessions, session_checks, nodes, services, checks, prepared-queries, index table, lock-delay keys) of the real state store after every command equals the Lean model's; LockInv, acquire/release verdicts and same-step release hold on the implementation"
-	mons := func() []storex.Monitor { return []storex.Monitor{storex.LockMon{}} }
+	mons := func() []storex.Monitor { return []storex.Monitor{storex.LockMon{}, linkMon{}} }
 	storex.RandomHistories(run, []*storex.Profile{sessionHeavy, catalogHeavy, txnHeavy}, run.Scale(400, 4000), 35, mons, false)
 	variant = int((run.Seed / 7) % 3)
 	run.Tag("exhaustive-variant:" + string(rune('0'+variant)))
 	storex.Exhaustive(run, preamble, alphabet(), run.Scale(3, 4), mons, false)
+	sessionCheckHistories(run, run.Scale(160, 1600), mons)
+	storex.Exhaustive(run, scPreamble, scAlphabet(), run.Scale(2, 3), mons, false)
 	run.Finish()
 }
